@@ -129,6 +129,14 @@ func freshVar(hint string, s Sort) *Term {
 			return mkVar(hint, s)
 		}
 	}
+	return freshVarCounted(hint, s)
+}
+
+// freshVarCounted always makes a new variable (uninterpreted applications are
+// memoised by their arguments elsewhere: two applications must never share a
+// variable because their name hint happens to carry an occurrence marker).
+func freshVarCounted(hint string, s Sort) *Term {
+	hint = sanitize(hint)
 	n := freshCtr[hint]
 	freshCtr[hint] = n + 1
 	name := hint
@@ -136,7 +144,7 @@ func freshVar(hint string, s Sort) *Term {
 		name = fmt.Sprintf("%s!%d", hint, n)
 	}
 	if o, ok := varDecls[name]; ok && o != s {
-		return freshVar(hint, s)
+		return freshVarCounted(hint, s)
 	}
 	return mkVar(name, s)
 }
